@@ -518,6 +518,9 @@ struct Interp {
   // C03 monitor: every witness of register ri is described by its value
   bool check_reg(int ri, const char *after) {
     Reg &rg = regs[ri];
+    if (getenv("CRABSIM_HIST_TRACE"))
+      fprintf(stderr, "hist step %ld after %s: r%d = %s (%zu witnesses)\n", step, after, ri,
+              rg.val->str().c_str(), rg.wit.size());
     for (auto &w : rg.wit) {
       GammaResult g = in_gamma(*rg.val, sigma_of_witness(cx, w), gopts);
       st.inc("gamma_checks");
